@@ -847,6 +847,122 @@ Proof.
   intros st b Hm. unfold step. rewrite (malformed_rejected st b Hm). reflexivity.
 Qed.
 
+(* ---- "incall all" requests that name no state reach no client ------------------------------------------------- *)
+Definition incall_fields : list (string * string * gty) :=
+  [("InCall", "incall", TRaw); ("All", "all", TBool); ("Changed", "changed", t_users); ("Users", "users", t_users)].
+
+Lemma incall_fields_nodup : NoDup (map fname incall_fields).
+Proof. cbn. repeat (constructor; [cbn; intuition discriminate|]). constructor. Qed.
+
+(* the flags the hub reads from the raw "incall" member of such a request: none *)
+Lemma unreadable_flags_none : forall ic vs2,
+  decode_fields incall_fields (zero (TStruct incall_fields)) ic = Ok vs2 ->
+  unreadable_flags ic = true ->
+  incall_flags (as_raw (fld "InCall" (GStruct vs2))) = None.
+Proof.
+  intros ic vs2 E2 Hu.
+  assert (Hs : In ("InCall", "incall", TRaw) incall_fields) by (cbn; tauto).
+  destruct (decode_fields_assoc _ _ _ _ _ _ _ E2 incall_fields_nodup Hs) as [w [Hw Ha]].
+  cbn [fld]. rewrite Ha. clear Ha.
+  unfold unreadable_flags in Hu. unfold nonnull_occurrences in Hw.
+  destruct (occurrences "incall" ic) as [|x [|? ?]].
+  - cbn in Hw. injection Hw as <-. reflexivity.
+  - destruct x; cbn in Hw; injection Hw as <-; cbn in Hu |- *; try reflexivity; try discriminate.
+    match goal with |- (if ?c then _ else _) = _ => destruct c end; [discriminate | reflexivity].
+  - exfalso. destruct x; discriminate.
+Qed.
+
+Lemma all_true_value : forall ic vs2,
+  decode_fields incall_fields (zero (TStruct incall_fields)) ic = Ok vs2 ->
+  occurrences "all" ic = [JBool true] -> as_bool (fld "All" (GStruct vs2)) = true.
+Proof.
+  intros ic vs2 E2 Ho.
+  assert (Hs : In ("All", "all", TBool) incall_fields) by (cbn; tauto).
+  destruct (decode_fields_assoc _ _ _ _ _ _ _ E2 incall_fields_nodup Hs) as [w [Hw Ha]].
+  rewrite (nonnull_single _ _ _ Ho eq_refl) in Hw. cbn in Hw. injection Hw as <-.
+  cbn [fld]. rewrite Ha. reflexivity.
+Qed.
+
+(* nothing the request made visible is an event for anybody *)
+Definition no_events (st : state) (ps : list pub) : Prop := forall sid, events_for st sid ps = [].
+
+Lemma names_no_state_dispatch : forall st ms vs,
+  decode_fields req_fields zero_req ms = Ok vs ->
+  incall_all_unreadable (JObj ms) = true ->
+  exists ic, as_str (fld "Type" (GStruct vs)) = "incall" /\ deref (fld "InCall" (GStruct vs)) = Some ic /\
+             as_bool (fld "All" ic) = true /\ incall_flags (as_raw (fld "InCall" ic)) = None /\
+             dispatch st (GStruct vs) = hpublish (GStruct vs) [] [].
+Proof.
+  intros st ms vs Hdf Hn. cbn [incall_all_unreadable] in Hn.
+  destruct (effective_type ms) as [ty|] eqn:Ety; [|discriminate].
+  apply andb_prop in Hn as [Hty Hn]. apply String.eqb_eq in Hty. subst ty.
+  pose proof (type_value _ _ _ Hdf Ety) as Hty.
+  destruct (occurrences "incall" ms) as [|o [|? ?]] eqn:Eo; try discriminate.
+  2: { destruct o; discriminate. }
+  destruct o; try discriminate. rename ms0 into ic.
+  destruct (occurrences "all" ic) as [|a [|? ?]] eqn:Ea; try discriminate.
+  2: { destruct a as [|[]| | | | |]; discriminate. }
+  destruct a as [|[]| | | | |]; try discriminate.
+  assert (Hin : In ("InCall", "incall", TPtr (TStruct incall_fields)) req_fields) by (cbn; unfold ty_incall; tauto).
+  destruct (field_value _ _ _ _ _ Hdf Hin) as [v [Hv Hf]].
+  rewrite (nonnull_single _ _ _ Eo eq_refl) in Hv.
+  change (sget "InCall" zero_req (zero (TPtr (TStruct incall_fields)))) with GNil in Hv.
+  cbn [decode_occs] in Hv.
+  destruct (decode (TPtr (TStruct incall_fields)) GNil (JObj ic)) as [c|] eqn:Ed; [|discriminate].
+  injection Hv as ->.
+  rewrite decode_ptr_obj, decode_struct_obj in Ed.
+  destruct (decode_fields incall_fields (zero (TStruct incall_fields)) ic) as [vs2|] eqn:E2; [|discriminate].
+  injection Ed as <-.
+  exists (GStruct vs2).
+  assert (Hall : as_bool (fld "All" (GStruct vs2)) = true) by (eapply all_true_value; eauto).
+  assert (Hfl : incall_flags (as_raw (fld "InCall" (GStruct vs2))) = None) by (eapply unreadable_flags_none; eauto).
+  repeat split; try assumption.
+  - rewrite Hf. reflexivity.
+  - unfold dispatch. rewrite Hty. cbn [String.eqb Ascii.eqb Bool.eqb]. unfold do_incall. rewrite Hf. cbn [deref].
+    rewrite Hall. reflexivity.
+Qed.
+
+Lemma consume_no_state : forall st r ic,
+  as_str (fld "Type" r) = "incall" -> deref (fld "InCall" r) = Some ic ->
+  as_bool (fld "All" ic) = true -> incall_flags (as_raw (fld "InCall" ic)) = None ->
+  consume st r = cdone st [].
+Proof.
+  intros st r ic Hty Hd Hall Hfl. unfold consume. rewrite Hty. cbn [String.eqb Ascii.eqb Bool.eqb].
+  rewrite Hd, Hall, Hfl. reflexivity.
+Qed.
+
+Lemma names_no_state_handle : forall st b, names_no_state b = true ->
+  (exists c, handle true st b = hdone c []) \/
+  (exists r, handle true st b = hdone 200 [PBackendRoom r] /\ consume st r = cdone st []).
+Proof.
+  intros st b Hn. destruct b as [|j]; [discriminate|]. cbn [names_no_state] in Hn. cbn [handle].
+  destruct (Z.of_nat (json_depth j) >? max_nesting)%Z; [left; eauto|].
+  destruct (decode ty_request (zero ty_request) j) as [req|] eqn:Ed; [|left; eauto].
+  destruct j; try discriminate.
+  destruct (request_fields _ _ Ed) as [vs [-> Hdf]].
+  destruct (names_no_state_dispatch st ms vs Hdf Hn) as (ic & Hty & Hd & Hall & Hfl & Hdis).
+  cbn [andb]. destruct (check_valid (GStruct vs)); cbn [negb]; [|left; eauto].
+  rewrite Hdis. unfold hpublish. destruct (fits (GStruct vs)); cbn [app]; [right|left; eauto].
+  exists (GStruct vs). split; [reflexivity|]. now apply (consume_no_state st _ ic).
+Qed.
+
+(* C11, last sentence, for the second class: whatever the state, an "incall all" request that names
+   no state is answered, kills nothing, leaves the state (call membership included) as it was and
+   produces no event for any session *)
+Lemma names_no_state_silent : forall st b, names_no_state b = true ->
+  fst (step true st b) = st /\
+  o_exit (snd (step true st b)) = false /\
+  (exists code, o_reply (snd (step true st b)) = Status code) /\
+  no_events st (o_pubs (snd (step true st b))).
+Proof.
+  intros st b Hn. unfold step.
+  destruct (names_no_state_handle st b Hn) as [[c H]|[r [H Hc]]]; rewrite H.
+  - cbn. repeat split; eauto.
+  - cbn [hdone h_pubs h_reply deliver]. destruct (st_room st).
+    + rewrite Hc. cbn. repeat split; eauto.
+    + cbn. repeat split; eauto.
+Qed.
+
 (* ---- the code as found (fixed = false) and the nesting limit: witnesses ------------------------------------- *)
 Definition wst : state := fixture true true.
 Definition w_invite : body := Doc (JObj [("type", JStr "invite")]).
@@ -896,3 +1012,15 @@ Definition ex_malformed : list body :=
    Doc (JObj [("type", JStr "switchto"); ("switchto", JObj [("roomid", JStr "r"); ("sessions", JArr [JStr "a"; JNum 2])])])].
 Lemma ex_malformed_ok : forallb malformed ex_malformed = true.
 Proof. vm_compute. reflexivity. Qed.
+
+(* non-vacuity: the six bodies of the class named in the report of the seeded change, and a state
+   with somebody in the call *)
+Definition ex_no_state : list body :=
+  map (fun v => Doc (JObj [("type", JStr "incall"); ("incall", JObj (v ++ [("all", JBool true)]))]))
+      [[("incall", JStr "yes")]; [("incall", JObj [("flags", JNum 1)])]; [("incall", JArr [JNum 1])];
+       [("incall", JFloat 15 (-1))]; [("incall", JNull)]; []].
+Lemma ex_no_state_ok :
+  forallb names_no_state ex_no_state = true /\ forallb (fun b => negb (malformed b)) ex_no_state = true /\
+  forallb (fun b => match o_reply (snd (step true (with_incall wst [fixture_sid]) b)) with Status 200 => true | _ => false end) ex_no_state = true.
+Proof. repeat split; vm_compute; reflexivity. Qed.
+
